@@ -434,7 +434,7 @@ func structuralDocs(r *hx.R, corpus [][]byte, tier string) [][]byte {
 	sort.Strings(tags)
 	per := 8
 	if tier == "thorough" {
-		per = 80
+		per = 30
 	}
 	var out [][]byte
 	for _, t := range tags {
